@@ -70,28 +70,44 @@ func (c *ctx) scalarEvent(op string, gen func() []byte) {
 	switch op {
 	case "add", "sub", "mul":
 		a, b := gen(), gen()
-		var o scalar.Scalar
+		// receiver: a fresh scalar, or (aliasing) the first / the second operand, or both operands the same object
+		sa, sb := bits(a), bits(b)
+		o := scalar.New()
+		switch c.r.Intn(6) {
+		case 0:
+			o = sa
+		case 1:
+			o = sb
+		case 2:
+			b = a
+			sb = sa
+			o = sa
+		}
 		switch op {
 		case "add":
-			o.Add(bits(a), bits(b))
+			o.Add(sa, sb)
 		case "sub":
-			o.Sub(bits(a), bits(b))
+			o.Sub(sa, sb)
 		case "mul":
-			o.Mul(bits(a), bits(b))
+			o.Mul(sa, sb)
 		}
-		e["a"], e["b"], e["out"] = vt.B(a), vt.B(b), vt.B(sbytes(&o))
+		e["a"], e["b"], e["out"] = vt.B(a), vt.B(b), vt.B(sbytes(o))
 	case "neg", "reduce", "invert":
 		a := gen()
-		var o scalar.Scalar
+		sa := bits(a)
+		o := scalar.New()
+		if c.r.Intn(3) == 0 {
+			o = sa // aliased receiver
+		}
 		switch op {
 		case "neg":
-			o.Neg(bits(a))
+			o.Neg(sa)
 		case "reduce":
-			o.Reduce(bits(a))
+			o.Reduce(sa)
 		case "invert":
-			o.Invert(bits(a))
+			o.Invert(sa)
 		}
-		e["a"], e["out"] = vt.B(a), vt.B(sbytes(&o))
+		e["a"], e["out"] = vt.B(a), vt.B(sbytes(o))
 	case "modorder":
 		a := gen()
 		s, err := scalar.NewFromBytesModOrder(a)
@@ -141,7 +157,10 @@ func (c *ctx) scalarEvent(op string, gen func() []byte) {
 			ins = append(ins, vt.B(a))
 			vals = append(vals, bits(a))
 		}
-		var o scalar.Scalar
+		o := scalar.New()
+		if k > 0 && c.r.Intn(3) == 0 {
+			o = vals[c.r.Intn(k)] // the receiver is one of the values
+		}
 		if op == "product" {
 			o.Product(vals)
 		} else {
@@ -150,7 +169,7 @@ func (c *ctx) scalarEvent(op string, gen func() []byte) {
 		if ins == nil {
 			ins = [][]int{}
 		}
-		e["as"], e["out"] = ins, vt.B(sbytes(&o))
+		e["as"], e["out"] = ins, vt.B(sbytes(o))
 	case "batchinvert":
 		k := 1 + c.r.Intn(4)
 		var ins, outs [][]int
